@@ -343,6 +343,11 @@ def replay(ctx, o):
         return (worst > 1e-9), 'native constructor, worst relative invariant violation %.3g (%s) on xs=%s ys=%s' % (worst, what, xs, ys)
     if key.startswith('C01/eval') or key.startswith('C01/deriv'):
         ys = _tab(m, 'ys'); A, B, C, D = [_tab(m, k) for k in 'abcd']; x = q2f(m['x']); pref = q2f(m['pref'])
+        if all(v == 0 for v in A + B + C + D):
+            # structural candidates come without a solver model (all fields zero): use generic non-degenerate coefficients, a query point inside a segment and a non-trivial prefactor so that every term of the cubic shows
+            A = [0.3 + 0.1 * j for j in range(len(A))]; B = [-0.7 + 0.2 * j for j in range(len(B))]; C = [1.1 - 0.3 * j for j in range(len(C))]; D = [0.5 * j for j in range(len(D))]
+            if not (xs[0] < x < xs[-1]) or x in xs: x = xs[0] + 0.37 * (xs[1] - xs[0])
+            if pref in (0.0, 1.0): pref = 1.5
         if key in ('C01/eval/located', 'C01/deriv/located'):
             r = nat.call(so, 'verif_c01_raw', [('u32', N), ('dbl[]', xs), ('dbl[]', ys), ('dbl[]', A), ('dbl[]', B), ('dbl[]', C), ('dbl[]', D), pref, ('u32', m['jLast']), ('i32', m['corr']), ('i32', 20), x, 0.0])
             if r['status'] != 'ok': return xs[0] <= x <= xs[-1], 'native Locate(%r) ended: %s' % (x, r['status'])
